@@ -166,6 +166,9 @@ def c14(ctx):
     pool += [p for p in gen.matrix_protos() if p.tag.startswith(('Mm', 'Ml'))][::(4 if quick else 1)]
     pool += [p for p in gen.matrix_protos() if p.tag.startswith('Mi')]     # identifier shapes: case conversion must not depend on what ran before
     gens = snaps = 0
+    # one helper process per target that never runs any other generator: the only baseline that process-wide state left behind by
+    # another generator (package-level caches, library configuration) cannot reach
+    solo = {l: ctx.new_vapi('solo_' + l) for l in tools.LANGS}
     for idx, p in enumerate(pool):
         text = dslprint.render(p)
         use_orders = orders if idx < nproto else orders[::24]
@@ -186,11 +189,27 @@ def c14(ctx):
                    {'dsl': text, 'order': d['order'], 'lang': d['lang'], 'kind': d['kind'], 'diff': d.get('diff'), 'detail': d.get('detail')})
         if len(ctx.cov['samples']) < 2:
             ctx.sample({'dsl': text[:1200], 'orders_run': len(use_orders), 'generates': r['generates'], 'snapshots_compared': r['snapshots']})
+        # the process that has by now run every generator many times vs the single-target processes
+        together = ctx.vapi.compile(text, tools.LANGS)
+        for l in tools.LANGS:
+            alone = solo[l].compile(text, [l])
+            if l not in alone['files'] or l not in together['files']:
+                continue
+            ctx.evaluated(1, key=(p.tag, l, 'solo-process'))
+            ctx.counters['solo-process-comparisons'] += 1
+            d = tree_diff(alone['files'][l], together['files'][l])
+            if d:
+                triage(ctx, 'C14', l, p, text, 'output-differs', '%s generated in a process that also ran the other generators differs from a process that only ever ran %s: %s %s' % (
+                    l, l, d[:4], first_line_diff(alone['files'][l].get(d[0][1:], b''), together['files'][l].get(d[0][1:], b''))),
+                    {'dsl': text, 'lang': l, 'diff': d, 'mode': 'solo-process'})
+    for l in tools.LANGS:
+        solo[l].stop()
     ctx.cov['generator_runs'] = gens
     ctx.cov['model_snapshots_compared'] = snaps
     # CLI: all 64 subsets
     subsets = [[l for i, l in enumerate(tools.LANGS) if m >> i & 1] for m in range(1, 64)]
-    for p in pool[:ncli]:
+    pairs_only = [x for x in pool if x.tag.startswith('Mi')]
+    for p in pool[:ncli] + pairs_only:
         text = dslprint.render(p)
         alone = {}
         for l in tools.LANGS:
@@ -199,7 +218,7 @@ def c14(ctx):
             alone[l] = (rc, trees[l])
             shutil.rmtree(wd, ignore_errors=True)
         for si, sub in enumerate(subsets):
-            if len(sub) == 1:
+            if len(sub) == 1 or (p in pairs_only and len(sub) not in (2, 6)):
                 continue
             wd = os.path.join(ctx.scr.dir, 'c14', p.tag, 's%d' % si)
             rc, log, trees = cli_compile(ctx, text, sub, wd)
